@@ -373,18 +373,18 @@ func genPyFile(r *rand.Rand, fi int, big bool, knownShapes bool) File {
 		nc = r.Intn(6)
 	}
 	for _, cn := range pickDistinct(r, pyClassNames, nc, suffix) {
-		it := PyItem{K: "class", Name: cn, Decos: genDecos(r, 2), Bases: []string{}, Methods: []PyFunc{}}
+		it := PyItem{K: "class", Name: cn, Decos: genDecos(r, 3), Bases: []string{}, Methods: []PyFunc{}}
 		for _, b := range pickDistinct(r, []string{"Base", "object", "models.Model", "Exception"}, r.Intn(3), "") {
 			it.Bases = append(it.Bases, b)
 		}
 		nm := r.Intn(5)
 		for _, mn := range pickDistinct(r, pyMethNames, nm, "") {
-			it.Methods = append(it.Methods, PyFunc{Name: mn, Decos: genDecos(r, 1), Params: params(true), Nested: takeNested(15)})
+			it.Methods = append(it.Methods, PyFunc{Name: mn, Decos: genDecos(r, 2), Params: params(true), Nested: takeNested(15)})
 		}
 		defs = append(defs, it)
 	}
 	for _, fn := range pickDistinct(r, pyFuncNames, r.Intn(4), suffix) {
-		defs = append(defs, PyItem{K: "func", Name: fn, Decos: genDecos(r, 2), Params: params(false), Nested: takeNested(25)})
+		defs = append(defs, PyItem{K: "func", Name: fn, Decos: genDecos(r, 3), Params: params(false), Nested: takeNested(25)})
 	}
 	r.Shuffle(len(defs), func(i, j int) { defs[i], defs[j] = defs[j], defs[i] })
 	if r.Intn(5) == 0 { // imports anywhere
